@@ -16,11 +16,14 @@
   (3) F37 IN THE MODEL.  `jump_rounds_quadratic`: on the family `(01 54 01)ⁿ` (n empty-bodied loops in a row, 3·n bytes of
       bytecode) the jump pass makes exactly n·(n+3)/2 rounds; `no_linear_bound`: hence no bound `c·(code bytes)` holds.
       The same family is measured on the real code (same counts).
+  (4) CONSTANT DATA.  `constant_data_bounded`: the running total of constant data (4 + the bytes each slice really holds) stays
+      inside the file for ANY input — the memory side of F104 / F161, with the F161 witness as a kernel-checked example.
   Until the repairs F103/F104 several function records could name the SAME name table or the SAME bytecode, several constant
   records the SAME string (work = records · region); now running totals are checked against the file length (`handlers_linear`).
 -/
 import Drx.Lscr.Steps
 import DrxProofs.LscrSteps
+import DrxProofs.LscrConstData
 import DrxProofs.LscrStepsLoop
 import DrxProofs.LscrStepsCond
 import DrxProofs.LscrStepsCondEq
@@ -35,6 +38,29 @@ open Drx Drx.Lscr Drx.Lscr.Steps
 /-- constant records (`for i in range(crb_nconstants)`): one round per 6 bytes that can be read, from ANY (signed) record offset -/
 theorem crb_loop_linear (codec : Codec) (d : Bytes) (conOff : Int) (declared : Nat) (st : CrbState) :
     6 * crbSteps codec d conOff declared st ≤ 2 * d.length + 6 := crbSteps_linear codec d conOff declared st
+
+/-- **constant data, ANY bytes** (repairs F104 and F161): the running total `declared` of `parse_lrcr_crb` — 4 bytes per
+    out-of-line constant plus the number of bytes its data slice really holds (`crbStep`: the length of the slice, not the length
+    word, so a negative length whose slice end counts from the end of the file is counted in full) — never decreases and, after ANY
+    number of completed rounds, still lies inside the file: the string and float constants of a script together hold at most
+    `len(file)` bytes of it, whatever lengths, offsets and counts the records declare -/
+theorem constant_data_bounded (codec : Codec) (d : Bytes) (conOff : Int) (n : Nat) (st st' : CrbState)
+    (h : crbLoop codec d conOff n st = .ok st') (h0 : st.declared ≤ d.length) :
+    st.declared ≤ st'.declared ∧ st'.declared ≤ d.length := crbLoop_declared n h h0
+
+/-- the same from the start of `parse_lrcr_crb` (running total 0) -/
+theorem constant_data_bounded_from_start (codec : Codec) (d : Bytes) (crbOff conOff : Int) (n : Nat) (st' : CrbState)
+    (h : crbLoop codec d conOff n { idx := crbOff, bpc := 6, acc := [] } = .ok st') : st'.declared ≤ d.length :=
+  (crbLoop_declared n h (Nat.zero_le _)).2
+
+/-- the hypothesis is satisfiable: one string record `"ab"` (length word 3) — running total 4 + 2 -/
+example : (crbLoop .macRoman [0,1, 0,0,0,0,  0,0,0,3, 0x61,0x62,0] 6 1 { idx := 0, bpc := 6, acc := [] }).toOption.map (·.declared)
+    = some 6 := by decide +kernel
+
+/-- F161 in the model: two records naming ONE length word `-16` at offset 12 of a 22-byte file; the slice is `d[16:-1]` (5 bytes)
+    and each round adds 4 + 5 — the guard before the repair added 4 + max(0, -17) = 4 -/
+example : (crbLoop .macRoman [0,1, 0,0,0,0,  0,1, 0,0,0,0,  0xFF,0xFF,0xFF,0xF0, 0x41,0x41,0x41,0x41,0x41,0x41] 12 2
+    { idx := 0, bpc := 6, acc := [] }).toOption.map (·.declared) = some 18 := by decide +kernel
 
 /-- property / global name records (`while idx < next table`): one round per 2 bytes, whatever the two offsets are -/
 theorem name_records_loop_linear (d : Bytes) (idx stop : Int) : nameRecordsSteps d idx stop ≤ d.length + 1 :=
